@@ -3,7 +3,7 @@
 A *case* is a JSON value
 
     {"cfg":   {"tmpl": REQ, "loader": REQ, "opt": OPT, "auto_reload": bool},
-     "root":  {"kind": "direct", "src": "str"|"bytes"|"file"|"stream", "own_loader": bool}
+     "root":  {"kind": "direct", "src": "str"|"bytes"|"file"|"stream", "own_loader": bool[, "pickle": true]}
             | {"kind": "load", "cls": "arg"|"default"}
             | {"kind": "plugin-file"|"plugin-string", "plugin": "markup"|"text"|"newtext"},
      "files": [{"name": str, "syn": "markup"|"newtext"|"oldtext", "items": [ITEM, ...]}, ...],
@@ -382,6 +382,9 @@ def random_case(rng):
     spell = core_spellings()
     root, cfg = rng.choice(root_configs(root_syn, spell))
     case = {'cfg': cfg, 'root': root, 'files': files}
+    if root['kind'] == 'direct' and rng.random() < 0.25:
+        case['root'] = dict(root, pickle=True)
+        return case
     if root['kind'] in ('load', 'plugin-file') or (root['kind'] == 'direct' and not root['own_loader']):
         if nfiles > 1 and rng.random() < 0.4:
             # loaded (with the class matching the file) and rendered earlier through the same
